@@ -183,9 +183,8 @@ def pArgs : Nat → Bool → List MTok → Option (List Expr)
           | none => none
       | _ => none
 
-/-- the source of `${…}`: a macro call `f(a, b)` or an expression -/
-def readXExpr (strict : Bool) (s : Str) : Option XExpr := do
-  let toks ← tokenize s
+/-- the tokens of `${…}`: a macro call `f(a, b)` or an expression -/
+def readXToks (strict : Bool) (toks : List MTok) : Option XExpr :=
   match toks with
   | .name f :: .sym '(' :: r =>
       if f = kwLen then (readExprToks strict toks).map .pure
@@ -193,6 +192,11 @@ def readXExpr (strict : Bool) (s : Str) : Option XExpr := do
         | [.sym ')'] => some (.call (mkVar strict f) [])
         | _ => (pArgs (r.length + 1) strict r).map (.call (mkVar strict f))
   | _ => (readExprToks strict toks).map .pure
+
+/-- the source of `${…}` -/
+def readXExpr (strict : Bool) (s : Str) : Option XExpr := do
+  let toks ← tokenize s
+  readXToks strict toks
 
 def pNames : Nat → List MTok → Option (List Str)
   | 0, _ => none
@@ -212,9 +216,8 @@ def pBinds : Nat → Bool → List MTok → Option (List (Name × Expr))
 def optExpr (strict : Bool) (toks : List MTok) : Option (Option Expr) :=
   if toks.isEmpty then some none else (readExprToks strict toks).map some
 
-/-- the directive a text template builds from `{% cmd value %}` / `#cmd value` -/
-def readDir (strict : Bool) (cmd : Str) (val : Str) : Option Dir := do
-  let toks ← tokenize val
+/-- the directive a text template builds from the command and the tokens of the value -/
+def readDirToks (strict : Bool) (cmd : Str) (toks : List MTok) : Option Dir :=
   if cmd = ['d', 'e', 'f'] then
     match toks with
     | [.name f] => some (.def_ f [])
@@ -230,6 +233,11 @@ def readDir (strict : Bool) (cmd : Str) (val : Str) : Option Dir := do
   else if cmd = ['o', 't', 'h', 'e', 'r', 'w', 'i', 's', 'e'] then (if toks.isEmpty then some .otherwise else none)
   else if cmd = ['w', 'i', 't', 'h'] then (pBinds (toks.length + 1) strict toks).map .with_
   else none
+
+/-- the directive a text template builds from `{% cmd value %}` / `#cmd value` -/
+def readDir (strict : Bool) (cmd : Str) (val : Str) : Option Dir := do
+  let toks ← tokenize val
+  readDirToks strict cmd toks
 
 /-! ### source text -> tokens of `textParse` -/
 
